@@ -351,7 +351,7 @@ pub fn run(cfg: &Cfg) -> Outcome {
             }
         }
     }
-    let n = cfg.n(9_000, 200_000);
+    let n = cfg.n(9_000, 800_000);
     let local = run_parallel(
         cfg,
         19,
